@@ -54,6 +54,9 @@ pub fn run(t: &[&str]) -> String {
                     out.push("derr".into());
                 }
             }
+            "n" => {
+                if tup.undelete().is_err() { out.push("nerr".into()); }
+            }
             "v" => match tup.vacuum(&sch, f[1].parse().unwrap()) {
                 Ok(_) => {}
                 Err(_) => out.push("verr".into()),
